@@ -134,9 +134,14 @@ def gen_uamiv_one_day(rng):
     there the record reader's time arithmetic is exact whatever the parity of the step"""
     while True:
         ts = rng.choice([1, 2, 3, 4, 6])
-        c = gen_uamiv_at(rng, rng.choice([1985, 2001, 2019, 2020]), rng.randint(1, 365), rng.choice([0, 0, 3, 5, 11]), tstep=ts)
+        c = gen_uamiv_at(rng, rng.choice([1985, 2001, 2019, 2020]), rng.randint(1, 365), rng.choice([0, 0, 3, 5, 11, 18, 21, 23]), tstep=ts)
         nt = rng.randint(1, 6)
-        if 24 - c['tflag'][0][1] // 10000 <= ts * nt:
+        left = 24 - c['tflag'][0][1] // 10000
+        if left < ts * nt:
+            continue
+        if left == ts * nt and (ts % 2 == 0 or c['tflag'][0][0] % 1000 >= 365):
+            # a period that runs to midnight is stamped (next day, 0.0): the record reader counts its steps with a day of
+            # 24 only for odd steps, and knows no year end
             continue
         import datetime as dt
         t0 = dt.datetime.strptime('%d %06d' % tuple(c['tflag'][0]), '%Y%j %H%M%S')
@@ -148,7 +153,7 @@ def gen_uamiv_one_day(rng):
         nspec = len(c['species'])
         c['data'] = [[[[rand_f32_bits(rng) for _ in range(c['nx'] * c['ny'])] for _ in range(c['nz'])] for _ in range(nspec)] for _ in range(nt)]
         c['name'] = rng.choice(['AVERAGE', 'INSTANT'])
-        assert c['tflag'][0][0] == c['etflag'][-1][0]
+        assert c['tflag'][0][0] == c['etflag'][-1][0] or c['etflag'][-1][1] == 0
         return c
 
 
